@@ -409,10 +409,19 @@ func (p *partition) Subscribe(ctx context.Context, req *client.SubscribeRequest)
 		return nil, st
 	}
 
-	if stopOffset != waitForNewMessages && stopOffset < startOffset {
-		return nil, status.New(
-			codes.InvalidArgument, fmt.Sprintf("Stop offset is before start offset: %d < %d",
-				stopOffset, startOffset))
+	if stopOffset != waitForNewMessages {
+		// A forward subscription reads up to the stop offset, a reverse
+		// subscription reads down to it.
+		if !req.Reverse && stopOffset < startOffset {
+			return nil, status.New(
+				codes.InvalidArgument, fmt.Sprintf("Stop offset is before start offset: %d < %d",
+					stopOffset, startOffset))
+		}
+		if req.Reverse && stopOffset > startOffset {
+			return nil, status.New(
+				codes.InvalidArgument, fmt.Sprintf("Stop offset is after start offset: %d > %d",
+					stopOffset, startOffset))
+		}
 	}
 
 	// Cancel previous group subscriber if there was one.
@@ -616,7 +625,7 @@ func (p *partition) getStopOffset(req *client.SubscribeRequest) (int64, *status.
 	switch req.StopPosition {
 	case client.StopPosition_STOP_ON_CANCEL:
 		stopOffset = waitForNewMessages
-		if p.log.IsReadonly() {
+		if p.log.IsReadonly() && !req.Reverse {
 			stopOffset = p.log.NewestOffset()
 		}
 	case client.StopPosition_STOP_OFFSET:
